@@ -180,6 +180,12 @@ theorem RG_delayCore {s : SeqState} (hi : SeqInv s) (d : Int) (n : ChName) (atRe
             | ok l => simp [hl, bind, Except.bind] at h
           · exact addDelay_inv hc h
 
+theorem RG_delayChecked {s : SeqState} (hi : SeqInv s) (d : Int) (n : ChName) (atRest : Bool) :
+    RG s (delayChecked s d n atRest) := by
+  rcases delayChecked_cases s d n atRest with h | ⟨e, h⟩ <;> rw [h]
+  · exact RG_delayCore hi d n atRest
+  · exact RG_fail hi e
+
 theorem RG_alignLoop {s : SeqState} (hi : SeqInv s) (tf : Int) (l : List (ChName × Int)) :
     RG s (alignLoop tf l s) := by
   induction l generalizing s with
@@ -377,7 +383,7 @@ theorem stepRaw_RG {s : SeqState} (hd : DevOk s.dev) (hi : SeqInv s) (op : Op) :
     apply RG_store; apply RG_markNonEmpty
     repeat' split
     all_goals first | exact RG_fail hi _ | exact RG_addCore hi _ _ _ _
-  | delay d n atRest => exact RG_store _ (RG_delayCore hi _ _ _)
+  | delay d n atRest => exact RG_store _ (RG_delayChecked hi _ _ _)
   | align chs atRest =>
     simp only [stepRaw]
     apply RG_store
